@@ -69,10 +69,10 @@ func hC03(n, prefix, L, vlen int) {
 }
 
 // the prefix overwrites k0: the first segment holds a dead record, so Compact has work
-func H_C03_q()    { hC03(2, 3, 2, 2) }
-func H_C03_tear() { hC03(2, 1, 2, 300) }
+func H_C03_q()       { hC03(2, 3, 2, 2) }
+func H_C03_tear()    { hC03(2, 1, 2, 300) }
 func H_C03_tearhdr() { hC03(2, 1, 2, 490) }
-func H_C03_t()    { hC03(2, 3, 3, 2) }
+func H_C03_t()       { hC03(2, 3, 3, 2) }
 
 // H_C03_shortwrite: one append to a segment writes a 7-byte prefix and fails
 // (the operation reports the error). Later operations are acknowledged, then the
